@@ -1,11 +1,11 @@
 
 check("C01", "exploration",
   "Seeded search: every run executes one (generated variant, operation, variables, resolver-outcome plan, release order) of servers generated at check time from /repo's templates, with each resolver/directive call parked and released by the scheduler, and compares data (key order kept) and the error multiset with an independent reference executor. Sampling, not proof; right level because the property is a refinement claim over an unbounded input space.",
-  "Probe schemas instead of random schemas; reference executor + plan are the trusted model (parameters P1/P2 documented in DESIGN 3.5); gqlgen-authored messages matched by path only.",
+  "Probe schemas instead of random schemas; reference executor + plan are the trusted model; validation verdicts use an explicit rule list, not gqlparser's mutable global one (parameters P1/P2 documented in DESIGN 3.5); gqlgen-authored messages matched by path only.",
   "deterministic simulation (seeded scheduler over parked resolver calls) + reference-model refinement", "5.1")
 check("C04", "fault_enumeration",
-  "For each sampled (variant, operation, base plan) EVERY single fault point found by a fault-free pass (resolver call, directive call, argument unmarshaler, custom-scalar marshaler) is injected as error and as panic, then seeded multi-fault sets, on one long-lived server; each execution must equal the reference under the same overlay, RecoverFunc count must equal injected panics, and an unrecovered panic kills the worker and is attributed to the run.",
-  "Reference executor is the model of 'only that position fails'; subscription-event context lives in the websocket scenario; status code of a serialisation panic not asserted.",
+  "For each sampled (variant, operation, base plan) EVERY single fault point found by a fault-free pass (resolver call, field- and operation-directive call, argument unmarshaler, custom-scalar marshaler incl. list elements) is injected as error and as panic, then seeded multi-fault sets, on one long-lived server; each execution must equal the reference under the same overlay, RecoverFunc count must equal injected panics, and an unrecovered panic kills the worker and is attributed to the run.",
+  "Reference executor is the model of 'only that position fails'; subscription-event, background-resolver and websocket operation-directive contexts live in the websocket scenario; one shape (several failing elements of a scalar list reported as one error) is a recorded known finding; status code of a serialisation panic not asserted.",
   "deterministic simulation: single-fault sweep + seeded multi-fault sets against a reference model", "5.4")
 check("C05", "fault_enumeration",
   "For each sampled (variant incl. worker_limit 0/1/2/8, operation, plan) the request context is cancelled at EVERY quiescent point of the execution; oracle is quiescence-based: nothing parked and request unfinished = hang (with the blocked stack), and after end+cancel no goroutine created by gqlgen may remain in the bubble (synctest goroutine dump).",
@@ -21,10 +21,10 @@ check("C13", "exploration",
   "deterministic simulation: group-completion-order search + defer-aware reference model", "5.13")
 check("C03", "exploration",
   "Histories of requests (valid documents and systematically invalidated variants, repeated so that caches hit) against one executor / handler.Server with seeded sets of instrumented extensions, cache kinds and suggestion settings, launched sequentially, overlapped or simultaneously; verdicts come from gqlparser alone; rejected requests must leave no interceptor/directive/resolver event, accepted ones must satisfy the lifecycle grammar and the reference executor; -race binary.",
-  "Subscriptions excluded (their gate is in C11's scenario); the RemoveRule/ReplaceRule window has no seam and is covered through the race detector only.",
+  "Subscriptions excluded (their gate is in C11's scenario); the process-global suggestion switch is chosen per worker process; the RemoveRule/ReplaceRule window has no seam and is covered through the race detector only.",
   "deterministic simulation: request-history search with lifecycle-grammar monitor + race detector", "5.3")
 check("C15", "exploration",
-  "Request histories over a small alphabet (4 texts x 7 request forms, POST and GET) against handler.Server+APQ with a harness cache that parks, evicts and drops; sequential histories are checked step by step against a 3-line model, overlapped ones with porcupine (linearizability against the same model), plus the invariant that every cache entry's key is the SHA-256 of its value.",
+  "Request histories over a small alphabet (8 texts incl. twins that differ only in string-literal whitespace or alias case x 9 request forms, POST and GET) against handler.Server+APQ with a harness cache that parks, evicts and drops; sequential histories are checked step by step against a 3-line model, overlapped ones with porcupine (linearizability against the same model), plus the invariant that every cache entry's key is the SHA-256 of its value.",
   "The model treats PersistedQueryNotFound as always legal for hash-only requests (eviction); porcupine timeouts are exit 2.",
   "deterministic simulation: history search + porcupine linearizability against a reference model", "5.15")
 check("C12", "exploration",
@@ -36,7 +36,7 @@ check("C11", "exploration",
   "Unique ids per connection; message texts and close codes are not asserted; net/http's own connection handling is outside the simulation.",
   "deterministic simulation: session search over message/emission/timer interleavings with a protocol monitor", "5.11")
 check("C20", "fault_enumeration",
-  "Seeded _entities requests over a federation probe generated at check time (single/alternative/nested keys, @requires, batch resolvers) with single and paired per-representation faults; every entity resolver call parks and completes in a tape-chosen order (incl. bursts under the race detector); element i must equal the echo computed from representation i alone or be null when it was faulted, neighbours must be untouched, RecoverFunc once per panic. Three genuine batch-resolver defects are recorded as known findings.",
+  "Seeded _entities requests over a federation probe generated at check time (single/alternative/nested keys, @requires incl. two selections normalising to one Go name, batch resolvers with and without @requires) with single and paired per-representation faults; every entity resolver call parks and completes in a tape-chosen order (incl. bursts under the race detector); element i must equal the echo computed from representation i alone or be null when it was faulted, neighbours must be untouched, RecoverFunc once per panic. Three genuine batch-resolver defects are recorded as known findings.",
   "Echo resolvers are harness code on both sides of the comparison; explicit/computed requires variants not generated.",
   "deterministic simulation: per-representation fault injection + completion-order search with an echo oracle", "5.20")
 check("C10", "fault_enumeration",
@@ -48,6 +48,6 @@ check("C07", "exploration",
   "Fresh-server oracle computed in the same process with the POST pool emptied by GC; GOMAXPROCS=1 makes pool reuse deterministic; websocket cross-operation leakage not covered.",
   "deterministic simulation: request-history search with a fresh-server differential oracle", "5.7")
 check("C18", "exploration",
-  "The generator is run as a child process built from a scratch copy in which every range over a map in the generator packages iterates in a seeded order; each run generates one of four probe projects under a seeded order, start directory, prior tree state and GOMAXPROCS, and every file must hash to the canonical generation (which must also agree between processes); re-generation over existing output must change nothing.",
+  "The generator is run as a child process built from a scratch copy in which every range over a map in the generator packages iterates in a seeded order; each run generates one of five probe projects (single-file, follow-schema + function syntax, federation, name-collision stress, legacy config without exec.layout and with value-field cycles) under a seeded order, start directory, prior tree state and GOMAXPROCS, and every file must hash to the canonical generation (which must also agree between processes); re-generation over existing output must change nothing.",
   "Probe projects instead of random schemas; iteration order inside dependencies is not seeded; ~4 s per generation bounds the number of runs.",
   "deterministic simulation: seeded map-iteration order via source instrumentation + byte-identity oracle", "5.18")
